@@ -80,14 +80,31 @@ def trace(binp, args):
     starts = [r[0] for r in rs]
     b, e = marks["main.markBegin"], marks["main.markEnd"]
     env = {"GOGC": "off", "GOMAXPROCS": "1", "GODEBUG": "asyncpreemptoff=1", "PATH": "/usr/bin:/bin"}
-    p = subprocess.Popen(["valgrind", "--tool=lackey", "--trace-mem=yes", binp] + args, stderr=subprocess.PIPE, stdout=subprocess.PIPE, text=True, env=env)
+    # the trace goes to a file, not a pipe: a slow reader would stretch the wall-clock time of the traced
+    # window, and the Go scheduler's time-based cooperative pre-emption then perturbs the trace
+    import tempfile
+    tdir = os.environ.get("VERIF_CT_TMP") or tempfile.gettempdir()
+    os.makedirs(tdir, exist_ok=True)
+    fd, logf = tempfile.mkstemp(prefix="lackey-", suffix=".log", dir=tdir)
+    os.close(fd)
+    p = subprocess.run(["valgrind", "--tool=lackey", "--trace-mem=yes", "--log-file=" + logf, binp] + args, stderr=subprocess.DEVNULL, stdout=subprocess.PIPE, text=True, env=env)
+    try:
+        return _parse(logf, rs, starts, b, e, p.stdout, p.returncode)
+    finally:
+        try:
+            os.remove(logf)
+        except OSError:
+            pass
+
+
+def _parse(logf, rs, starts, b, e, out, rc):
     nb = 0
     active = False
     cur = False
     pcs = []
     mem = []  # (index into pcs, kind, addr, size)
     funcs = {}
-    for line in p.stderr:
+    for line in open(logf, errors="replace"):
         c = line[0]
         if c == 'I':
             try:
@@ -119,9 +136,7 @@ def trace(binp, args):
                 mem.append((len(pcs) - 1, k, int(a, 16), int(s)))
             except ValueError:
                 pass
-    out = p.stdout.read()
-    p.wait()
-    return {"pcs": pcs, "mem": mem, "funcs": funcs, "out": out.strip(), "rc": p.returncode, "windows": nb}
+    return {"pcs": pcs, "mem": mem, "funcs": funcs, "out": (out or "").strip(), "rc": rc, "windows": nb}
 
 
 def symname(binp, pc):
